@@ -22,7 +22,7 @@ for sid in ids:
         r = sh("git", "-C", REPO, "apply", "--3way", d + "/patch.diff")
         if r.returncode != 0:
             print(f"{sid}: patch does not apply to the current tree ({r.stderr.strip().splitlines()[-1] if r.stderr.strip() else ''})")
-            sh("git", "-C", REPO, "checkout", "--", "."); sh("git", "-C", REPO, "reset", "-q")
+            sh("git", "-C", REPO, "reset", "-q", "--hard", "HEAD")
             continue
         sh("git", "-C", REPO, "reset", "-q")
     try:
